@@ -23,6 +23,7 @@ RULE_MODULES = {
     'RF14': 'rules.rf14_elem',
     'RF7': 'rules.rf7_narrow',
     'OBJWR': 'rules.p_objwrite',
+    'RF16': 'rules.rf16_delta',
 }
 
 
@@ -48,6 +49,8 @@ def run_rule(rule, ctx, tier):
 # manager drops actions).  The dependent check runs the foundation's rules too and reports their findings as
 # "via <foundation>".
 DEPENDS = {
+    # the sequential timing behaviour rests on the consistency of the timer lists
+    'C07': ['C08'],
     'C02': ['C04', 'C05', 'C06'],
     'C03': ['C04', 'C05', 'C06'],
     'C04': ['C06'],
@@ -97,8 +100,34 @@ PROPERTIES = {
         'not_decided': 'round-trip of every value and correctness of the search on every concrete dictionary beyond the '
                        'shape argument',
     },
+    'C07': {
+        'rules': ['RF16', 'TMR'],
+        'exhaustive': False,
+        'technique': 'abstract interpretation of COTmrInsert / COTmrRemove / COTmrService over a shape window (cursor, two '
+                     'successors, fresh event, caller-supplied event) with affine forms for expiry times, sign facts from '
+                     'branch conditions and a cursor shift at loop heads (saturated fixpoint, no execution, no solver); '
+                     'symbolic per-path result shape of the tick conversions; decision-table extraction for create / '
+                     'delete / service; must-facts for the re-arm interval',
+        'explanation': 'RF16-expiry: with alpha(head) = COIfTimerDelay() and alpha(next(n)) = alpha(n) + Delta(next(n)), every '
+                       'return of COTmrInsert leaves the new event at alpha == dTnew (or joins an event with alpha == dTnew), '
+                       'keeps alpha of every pending event, loses none, places the event between alpha <= dTnew and alpha >= '
+                       'dTnew, reloads the hardware timer when the head changes, and changes nothing when it refuses; every '
+                       'return of COTmrRemove keeps alpha of the remaining events (head removal adds the REMAINING time, '
+                       'interior removal the stored delta) and pushes the event on the free list; COTmrService loads the '
+                       'timer with the delta of the new head. RF16-rearm: a cyclic action is re-inserted with its own '
+                       'CycleTicks, only where that is non-zero. RF16-ticks: COTmrGetTicks is time / (unit / Freq) for Freq <= '
+                       'unit and time * (Freq / unit) above, 0 for frequency 0, time widened first (monotonic, exact on whole '
+                       'ticks); COTmrGetMinTime returns the same divisor. From the timer tables (TMR): creation fails iff no '
+                       'slot is free or both times are zero, first interval = start delay or the period when that is 0, a '
+                       'one-shot action is released before its callback, an action due together with a pending event joins '
+                       'it (all run in the same step), a confirmed deletion takes the action out of the pending or elapsed '
+                       'list.',
+        'not_decided': 'the schedule itself (on which tick each callback runs for a given operation history): the clauses above '
+                       'are necessary conditions - each one, when broken, shifts, loses or duplicates an expiry for some history - '
+                       'not a proof of lockstep agreement with a reference timer; overflow of the 32-bit time sums',
+    },
     'C08': {
-        'rules': ['RF4', 'RF5', 'TMR', 'RESET'],
+        'rules': ['RF4', 'RF5', 'TMR', 'RESET', 'RF16'],
         'technique': 'lock-depth dataflow over co_tmr.c (helpers inherit the depth of all call sites); non-null '
                      'dataflow with bounded disjunction over the timer list heads and links',
         'explanation': 'RF4: lock/unlock balanced on every path, every store to a list head or event link and every load of '
